@@ -236,7 +236,7 @@ def sequence_case(make, assignments, var, first, ra=None):
         ra = ("error", errA) if A is None else run_apply(A, var)
     S, errS = make({})
     if S is None:
-        return True, ra, ("error", errS)  # the base itself is invalid: nothing to compare
+        return True, ra, ("error", errS), None  # the base itself is invalid: nothing to compare
     touch(S)
     if first == "apply":
         run_apply(S, var)
@@ -249,7 +249,66 @@ def sequence_case(make, assignments, var, first, ra=None):
     except Exception as ex:  # noqa: BLE001
         err = type(ex).__name__
     rs = ("error", err) if err else run_apply(S, var)
-    return same_result(ra, rs), ra, rs
+    return same_result(ra, rs), ra, rs, (S if err is None else None)
+
+
+def observe(inst, name, r):
+    """what the real instance shows after an apply: outcome class, the active derived attributes, QDM's cdf_threshold"""
+    if r[0] == "error":
+        return "error " + str(r[1])
+    act = []
+    for tgt, (la, sa) in TARGET_ATTRS.items():
+        flag = {"running_window": "running_window_mode", "running_window_over_years_of_cm_future": "running_window_mode_over_years_of_cm_future"}[tgt]
+        if getattr(inst, flag, False):
+            o = getattr(inst, tgt, None)
+            act.append((tgt, type(o).__name__, getattr(o, la, None), getattr(o, sa, None)))
+    return ("ok", act, getattr(inst, "cdf_threshold", None) if name == "QuantileDeltaMapping" else None)
+
+
+def enc_field(v):
+    """like enc, but infinite floats stay floats (a finite stand-in: the model's validators only look at the type)"""
+    if isinstance(v, float) and not np.isfinite(v):
+        return "q:" + ("-" if v < 0 else "") + "1" + "0" * 30
+    if isinstance(v, str):
+        import re
+        return "s:" + re.sub(r"[ ;=]", "_", v)
+    return enc(v)
+
+
+def assoc_line(d):
+    return ";".join(f"{k}={enc_field(v)}" for k, v in d.items()) if d else "-"
+
+
+def num_eq(a, b):
+    """driver value encodings equal, int and float of the same value identified (converters)"""
+    if a == b:
+        return True
+    try:
+        fa = Fraction(a.split(":", 1)[1]) if a[:2] in ("i:", "q:") else (Fraction(int(a[2:])) if a[:2] == "b:" else None)
+        fb = Fraction(b.split(":", 1)[1]) if b[:2] in ("i:", "q:") else (Fraction(int(b[2:])) if b[:2] == "b:" else None)
+    except (ValueError, IndexError):
+        return False
+    return fa is not None and fa == fb
+
+
+def settings_dicts(cls):
+    """(default settings, experimental default settings, general settings) dictionaries the class's from_variable uses"""
+    import sys
+
+    if cls.__name__ == "ISIMIP":
+        from ibicus.debias import _isimip_options as o
+
+        return o.isimip3_variable_settings, {}, o.isimip3_general_settings
+    m = sys.modules[cls.__module__]
+    return m.default_settings, getattr(m, "experimental_default_settings", {}), {}
+
+
+def all_fields_line(inst, fields, override=None):
+    parts = []
+    for f in fields:
+        v = override[f["name"]] if override and f["name"] in override else getattr(inst, f["name"])
+        parts.append(f"{f['name']}={enc_field(v)}")
+    return ";".join(parts)
 
 
 def show(r):
@@ -326,7 +385,12 @@ def run(tier, res, force_search=False):
         "are modelled in Model.Config.checkField and validated by the correspondence only",
         "str.lower() is modelled on ASCII letters (Model.Config.lowerC)",
     ]
-    res.assumptions = ["QuantileDeltaMapping: cdf_threshold is given explicitly when window lengths are assigned (the property's own guard; "
+    res.assumptions = ["RUNTIME-ONLY clauses (decided by the oracle on the real code, no theorem): bitwise equality of the numeric apply outputs of "
+                       "two instances (the model proves equality of everything a run can read — fields and active derived attributes — for any "
+                       "history; that a run reads nothing else, e.g. no cache keyed on stale state such as a cached_property, is what the sequence "
+                       "oracle and the tier-A requirement that has_* are plain properties tie), the warning machinery of from_variable, the "
+                       "contents of distribution objects (QDM's censored-gamma threshold), that ISIMIP without bounds *runs*",
+                       "QuantileDeltaMapping: cdf_threshold is given explicitly when window lengths are assigned (the property's own guard; "
                        "theorem qdm_cdf_threshold_guard_needed shows it is necessary)",
                        "QuantileDeltaMapping for pr: the distribution is given explicitly too — from_variable('pr', censoring_threshold=x) derives the "
                        "censored-gamma distribution from x (for_precipitation) whereas assigning censoring_threshold leaves the distribution alone, as the "
@@ -429,6 +493,34 @@ def run(tier, res, force_search=False):
         else:
             q(f"forprecip {name}", "forprecip", {"debiaser": name}, "none")
 
+    # ---- the variable's defaults (and the general defaults under them) are what an instance gets; a keyword argument on top wins
+    for name in DEBS:
+        cls = getattr(D, name)
+        dflt, expd, general = settings_dicts(cls)
+        for vobj, vs in list(dflt.items()) + list(expd.items()):
+            key = next(k for k, o in V.str_to_variable_class.items() if o is vobj)
+            for kwargs in ({}, {"running_window_mode": False}, {"running_window_mode": True, "running_window_length": 45}):
+                with warnings.catch_warnings():
+                    warnings.simplefilter("ignore")
+                    try:
+                        inst = cls.from_variable(key, **kwargs)
+                    except Exception as ex:  # noqa: BLE001
+                        problems.append((f"from_variable({key!r}, **{kwargs}) raised {type(ex).__name__}: {str(ex)[:80]}",
+                                         {"debiaser": name, "variable": key, "kwargs": kwargs}, {"what": "defaults_rejected"}))
+                        continue
+                merged = {"variable": vobj.name, "reasonable_physical_range": vobj.reasonable_physical_range, **general, **vs, **kwargs}
+                res.count((name, key, "defaults", repr(kwargs)), True)
+                for k, v in merged.items():
+                    got = getattr(inst, k)
+                    case = {"debiaser": name, "variable": key, "kwargs": kwargs, "setting": k, "expected": repr(v)[:60], "on_instance": repr(got)[:60]}
+                    if not (same_value(got, v) or (isinstance(got, float) and isinstance(v, (int, float)) and float(v) == got)):
+                        src = "keyword argument" if k in kwargs else "variable default" if k in vs else "general default" if k in general else "Variable attribute"
+                        problems.append((f"from_variable({key!r}, **{kwargs}).{k} = {got!r}, but the {src} is {v!r}", case,
+                                         {"what": "kwarg_ignored" if k in kwargs else "default_not_applied"}))
+                    if enc_field(v) != "o:str":
+                        q(f"params {enc_field(vobj.name)} {enc_field(vobj.reasonable_physical_range)} {assoc_line(general)} {assoc_line(vs)} {assoc_line(kwargs)} {k}",
+                          "params", case, enc_field(got))
+
     # QDM detour: censoring_threshold keyword for every variable / spelling; the distribution must know the threshold for every spelling of pr
     qdm = D.QuantileDeltaMapping
     for key in names:
@@ -477,6 +569,7 @@ def run(tier, res, force_search=False):
             mf = next((f for f in model_fields if f["name"] == a.name), None)
             if mf is not None and (mf["default"] is None) != (a.default is attrs.NOTHING):
                 res.tie_broken.append(f"{name}.{a.name}: required-ness differs between model and attrs")
+        all_model_fields = list(model_fields)
         model_fields = [f for f in model_fields if f["name"] != "variable"]
         # (`variable` is also the name of from_variable's own first parameter, so it cannot be passed as a keyword override —
         #  TypeError: multiple values; it is the Variable's name, not a setting; excluded here and below)
@@ -526,8 +619,13 @@ def run(tier, res, force_search=False):
                 # earlier run / an earlier look must not survive the assignment
                 if fname in WINDOW_FIELDS or fname in BOUND_FIELDS:
                     for first in ("apply", "read"):
-                        ok_seq, _, rs = sequence_case(lambda extra: construct(cls, {**base_kw, **extra}, var), [(fname, x)], var, first, ra=ra)
+                        ok_seq, _, rs, S = sequence_case(lambda extra: construct(cls, {**base_kw, **extra}, var), [(fname, x)], var, first, ra=ra)
                         res.count((name, var, fname, "sequence", first), True)
+                        if (first == "apply" and fname in WINDOW_FIELDS and S is not None
+                                and (rs[0] == "ok" or rs[1] in ("ValueError", "TypeError", "AttributeError"))):
+                            # model: the same history (apply, assignment, apply) through `runOps`
+                            q(f"ops {name} {fields_line(base, rule_fields)} A;{fname}={enc(x)}", "apply",
+                              {**case, "sequence": ["apply", f"assign {fname}", "apply"]}, observe(S, name, rs))
                         if not ok_seq:
                             problems.append((f"{first} first, then {fname}={x!r} assigned, then apply differs from {fname}={x!r} at construction "
                                              f"({diff_detail(ra, rs)})", {**case, "sequence": [first, f"assign {fname}", "apply"]},
@@ -577,6 +675,11 @@ def run(tier, res, force_search=False):
                     res.count((name, f["name"], "invalid", repr(bad), kc), True)
                     if kc == 0:
                         q(f"field {name} {f['name']} {enc(bad)}", "field", case, "error " + str(err) if inst is None else "ok " + enc(getattr(inst, f["name"])))
+                    if cvar == "tas":
+                        ctx_inst, _ = construct(cls, ckw, cvar)
+                        if ctx_inst is not None:  # model: attrs validation of every field + post-init, with the bad value among valid ones
+                            q(f"construct {name} {all_fields_line(ctx_inst, all_model_fields, {f['name']: bad})}", "construct", case,
+                              "ok" if inst is not None else "error " + str(err))
                     if inst is not None:
                         problems.append((f"invalid setting {f['name']}={bad!r} ({note}) accepted at construction", case, {"what": "invalid_accepted"}))
         # invalid COMBINATIONS of settings: rejected at construction and by the re-run of __attrs_post_init__ in apply, in every
@@ -676,7 +779,7 @@ def run(tier, res, force_search=False):
             ("ISIMIP.from_variable('pr', running_window_step_length=31)", make_pr, [("upper_bound", 2.0 ** -10), ("upper_threshold", 2.0 ** -11)])]
     for ctor, make, asg in seqs:
         for first in ("apply", "read"):
-            ok_seq, ra, rs = sequence_case(make, asg, "pr", first)
+            ok_seq, ra, rs, _ = sequence_case(make, asg, "pr", first)
             scase = {"debiaser": "ISIMIP", "constructor": ctor, "variable": "pr", "sequence": [first] + [f"assign {k}={v}" for k, v in asg] + ["apply"],
                      "setting": asg[0][0], "value": asg[0][1]}
             res.count(("ISIMIP", "bound sequence", ctor[:20], asg[0][0], first), True, sample={**scase, "constructed": show(ra), "sequence_result": show(rs)})
@@ -705,6 +808,8 @@ def run(tier, res, force_search=False):
             res.cov["traces_validated_against_impl"] += 1
             if what == "apply":
                 ok = compare_apply(exp, got)
+            elif what == "params":
+                ok = num_eq(exp, got)
             else:
                 ok = exp == got
             if not ok:
@@ -784,7 +889,7 @@ def replay(data):
     elif what == "sequence_assign_ne_construct" and isinstance(fi.get("base_kwargs"), dict):
         var = fi.get("variable", "tas")
         base_kw = base_kwargs(fi["debiaser"], var)
-        ok_seq, ra, rs = sequence_case(lambda extra: construct(cls, {**base_kw, **extra}, var), [(fi["setting"], fi["value"])], var, fi["sequence"][0])
+        ok_seq, ra, rs, _ = sequence_case(lambda extra: construct(cls, {**base_kw, **extra}, var), [(fi["setting"], fi["value"])], var, fi["sequence"][0])
         print("constructed:", show(ra), "sequence:", show(rs), "equal:", ok_seq)
         return 0 if ok_seq else 1
     elif "setting" in fi and what == "assign_ne_construct":
